@@ -71,7 +71,7 @@ def _a_series(rng, s):
 
 ARGS = {
     'values=': lambda rng, s: {'values': rec(rng, 7).tolist()},
-    'reset_values': _a_reset,
+    'reset_values': lambda rng, s: _a_reset(rng, s, rng.choice([None, None, 48, 80, 96, 130])),
     'add_constant': lambda rng, s: {'constant': round(rng.uniform(0.1, 1.0), 3)},
     'add_series': _a_series,
     'add_signal': _a_series,
